@@ -43,6 +43,13 @@
 #else
 #define VH_PDU_ALLOC() malloc(sizeof(coap_pdu_t))
 #endif
+/* the heap block: exactly max_hdr_size+alloc_size+phys_extra bytes (default), or -- bounded tier, where every
+ * object must have a compile-time size for byte-content reasoning -- exactly PDU_FIXED_BLOCK bytes */
+#ifdef PDU_FIXED_BLOCK
+#define VH_PDU_BLOCK() ASSUME((size_t)max_hdr_size + alloc_size + phys_extra <= PDU_FIXED_BLOCK); IN_BUF_FIXED(blk, PDU_FIXED_BLOCK)
+#else
+#define VH_PDU_BLOCK() size_t blk_size = (size_t)max_hdr_size + alloc_size + phys_extra; IN_BUF(blk, blk_size, CAPW)
+#endif
 #define HARNESS_PDU(pdu) \
   IN_SCALAR(uint8_t, max_hdr_size); IN_SCALAR(uint8_t, hdr_size); \
   IN_SCALAR(size_t, alloc_size); IN_SCALAR(size_t, used_size); IN_SCALAR(size_t, max_size); \
@@ -53,8 +60,7 @@
   ASSUME(used_size <= alloc_size && tok_len <= TOKMAX && tok_len + BIAS(tok_len) <= used_size); \
   ASSUME(data_off == 0 || (data_off > tok_len + BIAS(tok_len) && data_off < used_size)); \
   ASSUME(ptype <= 3); \
-  size_t blk_size = (size_t)max_hdr_size + alloc_size + phys_extra; \
-  IN_BUF(blk, blk_size, CAPW); \
+  VH_PDU_BLOCK(); \
   coap_pdu_t *pdu = VH_PDU_ALLOC(); ASSUME(pdu != NULL); \
   pdu->max_hdr_size = max_hdr_size; pdu->hdr_size = hdr_size; pdu->alloc_size = alloc_size; \
   pdu->used_size = used_size; pdu->max_size = max_size; pdu->token = blk + max_hdr_size; \
